@@ -7,6 +7,7 @@
 package main
 
 import (
+	"bytes"
 	"fmt"
 	"os"
 	"path/filepath"
@@ -14,6 +15,7 @@ import (
 	"strings"
 
 	"github.com/tsawler/tabula"
+	"github.com/tsawler/tabula/epubdoc"
 	"github.com/tsawler/tabula/htmldoc"
 	"verif/internal/harness"
 )
@@ -26,7 +28,7 @@ type checker struct {
 }
 
 func run(e *harness.Env) {
-	e.Rule = "documents = (A) every sequence of <=2 (quick) / <=3 (thorough) content blocks over 53 block shapes " +
+	e.Rule = "documents = (A) every sequence of <=2 (quick) / <=3 (thorough) content blocks over 54 block shapes " +
 		"(h1-h6, p, pre, code, pre>code, blockquote[>p], ul/ol depth 1-3, li with <p>, tables with thead/tbody/tfoot and row/col spans, lists as direct children of lists, nested lists / tables / quotes / pre reached through div, section, span inside an item, sibling lists in one parent, neutral containers, script/style noise); " +
 		"(A2) every shape and pair x 8 inline variants (plain, named/decimal/hex entities, inline markup, script+comment inside, misnested inline tags, mixed) x 4 frames (full, fragment, head/body omitted, XHTML) x 8 spellings (omitted end tags, quoting, case, whitespace, cut off before the trailing end tags); " +
 		"(B) one possibly-excludable wrapper (semantic elements, ARIA roles, 20 vocabulary words x 10 decorations x class/id, near-misses, link-dense/sparse blocks, attribute-carrying leaves) x 20 page skeletons (top-level, single wrapper, nested, inside and directly inside lists, only block child of a neutral container, with loose inline text beside it) x inner content; " +
@@ -48,6 +50,7 @@ func run(e *harness.Env) {
 	c.spaceC()
 	c.spaceD()
 	c.spaceT()
+	c.spaceM()
 }
 
 // ---- one document ---------------------------------------------------------------------------------------
@@ -63,6 +66,9 @@ type docCase struct {
 	// Removing that block physically turns the container into a paragraph (a different classification of the
 	// loose text, which the property does not govern), so the equality-with-pruned-document clause is not judged.
 	loose bool
+	// modal: the document has parts some mode excludes; deep documents of this kind also get the ordered-pairs
+	// matrix on one epubdoc.Reader
+	modal bool
 }
 
 // cache walk: visits every ordered pair of modes once (Eulerian circuit of the complete digraph with loops).
@@ -110,20 +116,21 @@ func (c *checker) doc(dc docCase) {
 
 // observed: everything the real code returned for one document.
 type observed struct {
-	ref     *refModel
-	prim    [4]out            // fresh reader per mode
-	pruned  [4]out            // mode None on the document with mode m's excluded subtrees removed
-	prunedS [4]string         // the pruned sources
-	cache   []string          // result of step k of the cache walk on one shared reader
-	pairs   map[[2]int]string // fresh reader queried in mode a then b: text of b
-	entry   map[string]out    // other entry points; key "ep/mode"
-	facades map[string]out
-	epub    map[string]string // "text/m" "md/m"
-	epubErr string
+	ref         *refModel
+	prim        [4]out         // fresh reader per mode
+	pruned      [4]out         // mode None on the document with mode m's excluded subtrees removed
+	prunedS     [4]string      // the pruned sources
+	cache       []string       // result of step k of the cache walk on one shared reader
+	pairBad     string         // first mismatch of the ordered-pairs-on-one-reader matrix (htmldoc)
+	epubPairBad string         // the same for epubdoc.Reader
+	entry       map[string]out // other entry points; key "ep/mode"
+	facades     map[string]out
+	epub        map[string]string // "text/m" "md/m"
+	epubErr     string
 }
 
 func (c *checker) observe(dc docCase, src string) *observed {
-	ob := &observed{ref: newRef(dc.body), entry: map[string]out{}, facades: map[string]out{}, epub: map[string]string{}, pairs: map[[2]int]string{}}
+	ob := &observed{ref: newRef(dc.body), entry: map[string]out{}, facades: map[string]out{}, epub: map[string]string{}}
 	for m := 0; m < 4; m++ {
 		ob.prim[m] = fresh(src, m)
 	}
@@ -150,18 +157,27 @@ func (c *checker) observe(dc docCase, src string) *observed {
 	if !dc.deep {
 		return ob
 	}
-	for a := 0; a < 4; a++ {
-		for b := 0; b < 4; b++ {
-			if a == b {
-				continue
-			}
-			if r, err := htmldoc.OpenReader(strings.NewReader(src)); err == nil {
-				queryReader(r, a, (a+b)%3)
-				s, _ := queryReader(r, b, 0)
-				ob.pairs[[2]int{a, b}] = s
-				r.Close()
+	// every ordered pair of modes (incl. the same mode twice) on ONE reader, mode a being the reader's very first
+	// query: both the first and the second result must equal the fresh-reader result, in all three renderings
+	for a := 0; a < 4 && ob.pairBad == ""; a++ {
+		r, err := htmldoc.OpenReader(strings.NewReader(src))
+		if err != nil {
+			ob.pairBad = "OpenReader: " + err.Error()
+			break
+		}
+		for via := 0; via < 3; via++ {
+			if s, _ := queryReader(r, a, via); s != ob.prim[a].r[via] && ob.pairBad == "" {
+				ob.pairBad = fmt.Sprintf("new reader, first queries in mode %s: %s differs from another fresh reader\n--- got\n%s\n--- fresh\n%s", modeNames[a], viaNames[via], s, ob.prim[a].r[via])
 			}
 		}
+		for b := 0; b < 4; b++ {
+			for via := 0; via < 3; via++ {
+				if s, _ := queryReader(r, b, via); s != ob.prim[b].r[via] && ob.pairBad == "" {
+					ob.pairBad = fmt.Sprintf("one reader queried in mode %s first, then in mode %s: %s differs from a fresh reader in mode %s\n--- after %s\n%s\n--- fresh\n%s", modeNames[a], modeNames[b], viaNames[via], modeNames[b], modeNames[a], s, ob.prim[b].r[via])
+				}
+			}
+		}
+		r.Close()
 	}
 	// file entry points
 	hp := filepath.Join(c.dir, "x.html")
@@ -202,6 +218,33 @@ func (c *checker) observe(dc docCase, src string) *observed {
 				k = "md"
 			}
 			ob.epub[fmt.Sprintf("%s/%d", k, m)] = s
+		}
+	}
+	if dc.modal {
+		// ordered pairs of modes on ONE epubdoc.Reader (mode a = the reader's very first call), Text and Markdown
+		for a := 0; a < 4 && ob.epubPairBad == ""; a++ {
+			r, err := epubdoc.OpenReader(bytes.NewReader(data), int64(len(data)))
+			if err != nil {
+				ob.epubPairBad = "OpenReader: " + err.Error()
+				break
+			}
+			call := func(m int, md bool) (string, string) {
+				if md {
+					s, _ := r.MarkdownWithOptions(epubdoc.ExtractOptions{NavigationExclusion: m})
+					return s, fmt.Sprintf("md/%d", m)
+				}
+				s, _ := r.TextWithOptions(epubdoc.ExtractOptions{NavigationExclusion: m})
+				return s, fmt.Sprintf("text/%d", m)
+			}
+			seq := []int{a, 0, 1, 2, 3}
+			for i, m := range seq {
+				for _, md := range []bool{false, true} {
+					if s, k := call(m, md); s != ob.epub[k] && ob.epubPairBad == "" {
+						ob.epubPairBad = fmt.Sprintf("one epubdoc.Reader, first call in mode %s, call %d in mode %s (%s) differs from a fresh reader\n--- on the used reader\n%s\n--- fresh reader\n%s", modeNames[a], i, modeNames[m], k, s, ob.epub[k])
+					}
+				}
+			}
+			r.Close()
 		}
 	}
 	ep := filepath.Join(c.dir, "x.epub")
@@ -482,22 +525,22 @@ func (c *checker) clauses(dc docCase, ob *observed, report func(desc string, ok 
 	if !dc.deep {
 		return
 	}
-	d = sub("chk", "cachepairs")
+	d = sub("chk", "pairs", "ep", "htmldoc")
 	if dry {
 		report(d, true, "", "", "")
+	} else if ob.pairBad != "" {
+		report(d, false, "cache-depends-on-history", ob.pairBad, "")
 	} else {
-		bad := ""
-		for a := 0; a < 4; a++ {
-			for b := 0; b < 4; b++ {
-				if a != b && ob.pairs[[2]int{a, b}] != ob.prim[b].r[0] {
-					bad = fmt.Sprintf("reader queried in mode %s then %s: text differs from a fresh reader in mode %s\n--- after %s\n%s\n--- fresh\n%s", modeNames[a], modeNames[b], modeNames[b], modeNames[a], ob.pairs[[2]int{a, b}], ob.prim[b].r[0])
-				}
-			}
-		}
-		if bad != "" {
-			report(d, false, "cache-depends-on-history", bad, "")
+		report(d, true, "", "", "pairs:htmldoc")
+	}
+	if dc.modal {
+		d = sub("chk", "pairs", "ep", "epubdoc")
+		if dry {
+			report(d, true, "", "", "")
+		} else if ob.epubPairBad != "" {
+			report(d, false, "cache-depends-on-history", ob.epubPairBad, "")
 		} else {
-			report(d, true, "", "", "cachepairs")
+			report(d, true, "", "", "pairs:epubdoc")
 		}
 	}
 
@@ -644,7 +687,7 @@ func bucket(n int) string {
 
 // kindClass collapses leaf kinds to their element for the outcome statistics.
 func kindClass(k string) string {
-	if i := strings.IndexAny(k, "@+"); i > 0 {
+	if i := strings.IndexAny(k, "@+/"); i > 0 {
 		k = k[:i]
 	}
 	return k
